@@ -119,6 +119,41 @@ ENTRY_TEXTS = [
 ]
 
 
+REL_UNSCALED = "skrifa/src/outline/unscaled.rs"
+FIND_LAST_CONTOUR = (
+    "pub fn find_last_contour( &self, mut f: impl FnMut(&UnscaledPoint) -> bool, ) -> Option<(Range<usize>, usize)> { "
+    "if self.points.is_empty() { return None; } let mut best_contour = 0..0; let mut best_point = 0; "
+    "let mut cur_contour = 0..0; let mut found_best_in_cur_contour = false; "
+    "for (point_ix, point) in self.points.iter().enumerate() { if point.is_contour_start { "
+    "if found_best_in_cur_contour { best_contour = cur_contour; } cur_contour = point_ix..point_ix; "
+    "found_best_in_cur_contour = false; match self.points.get(point_ix + 1) { "
+    "Some(next_point) if next_point.is_contour_start => continue, None => continue, _ => {} } } "
+    "cur_contour.end += 1; if f(point) { best_point = point_ix - cur_contour.start; "
+    "found_best_in_cur_contour = true; } } if found_best_in_cur_contour { best_contour = cur_contour; } "
+    "if !best_contour.is_empty() { Some((best_contour, best_point)) } else { None } }")
+
+
+def check_find_last_contour(unscaled_src, blues_src):
+    """Model/FindLastContour.lean transcribes this body; compute_default_blues gets (best_contour_range,
+    best_point_ix) only from it"""
+    if FIND_LAST_CONTOUR not in " ".join(strip_comments(unscaled_src).split()):
+        raise Unsupported(f"{REL_UNSCALED}: find_last_contour no longer reads as transcribed in Model/FindLastContour.lean")
+    m = re.search(r"let\s+best_contour_and_point\s*=\s*if\b[^{]*\{", blues_src)
+    if not m:
+        raise Unsupported("entry state: `let best_contour_and_point = if … {` not found")
+    b = m.end() - 1
+    e = match_brace(blues_src, b)
+    m2 = re.match(r"\s*else\s*\{", blues_src[e + 1:])
+    if not m2:
+        raise Unsupported("entry state: `best_contour_and_point` has no else branch")
+    e2 = match_brace(blues_src, e + 1 + m2.end() - 1)
+    for blk in (blues_src[b:e + 1], blues_src[e + 1 + m2.end() - 1:e2 + 1]):
+        if not re.match(r"\{\s*outline\s*\.\s*find_last_contour\s*\(", blk):
+            raise Unsupported("entry state: a branch of `best_contour_and_point` is not `outline.find_last_contour(…)`")
+    if len(re.findall(r"\bbest_contour_and_point\b", blues_src)) != 2:
+        raise Unsupported("entry state: `best_contour_and_point` is used other than in its `let … else { continue }`")
+
+
 def check_entry(src):
     """segment_first / segment_last are `best_point_ix` or an index yielded by cycle_backward / cycle_forward over
     `best_contour` — nothing else writes them before the scan"""
@@ -505,9 +540,11 @@ class Gen:
 
 # ------------------------------------------------------------------------------------------------------------
 
-def generate(src_text, src_label):
+def generate(src_text, src_label, unscaled_text=None):
     src = strip_comments(src_text)
     check_entry(src)
+    if unscaled_text is not None:
+        check_find_last_contour(unscaled_text, src)
     b, e = locate(src)
     line0 = src.count("\n", 0, b) + 1
     p = Parser(src[b:e + 1], line0)
@@ -575,6 +612,7 @@ def main():
     ap = argparse.ArgumentParser()
     ap.add_argument("--repo", default="/repo")
     ap.add_argument("--src", help="read this file instead of <repo>/" + REL)
+    ap.add_argument("--unscaled", help="read this file instead of <repo>/" + REL_UNSCALED)
     ap.add_argument("--out", required=True, help="directory (BluesScan.lean is written there) or a .lean path")
     ap.add_argument("--report")
     a = ap.parse_args()
@@ -582,7 +620,7 @@ def main():
     unparsed = []
     lean = stats = None
     try:
-        lean, stats, g = generate(open(path).read(), REL)
+        lean, stats, g = generate(open(path).read(), REL, open(a.unscaled or os.path.join(a.repo, REL_UNSCALED)).read())
     except (Unsupported, OSError) as ex:
         unparsed.append({"item": f"{REL}::{FUNC} long-blue loop", "why": str(ex)})
     changed = False
